@@ -100,7 +100,7 @@ def gen_progspec(r, spec, force_t0=False, prefer=()):
     trans = spec["transitions"]
     has_link = lambda p: any(t[2] == p["name"] for t in trans)
     aggs = [p for p in spec["pars"] if not p.get("timed") and (p.get("function") or "").startswith(("SRC_", "TGT_"))]
-    cand = [p for p in spec["pars"] if not p.get("timed") and p["name"] not in ("out0",) and not (p["format"] == "number" and not has_link(p)) and p not in aggs]
+    cand = [p for p in spec["pars"] if not p.get("timed") and p["name"] not in ("out0",) and not (p["format"] == "number" and not has_link(p)) and p not in aggs and not p.get("derivative")]
     r.shuffle(cand)
     cand = [p for p in cand if p["name"] in prefer] + [p for p in cand if p["name"] not in prefer]
     chosen, seen = [], set()
@@ -207,8 +207,15 @@ def gen_spec(r, regime):
         feats["jinit"] = 1.0
     spec = genfw.random_spec(r, regime, feats)
     spec = closed_corr.enrich(spec, r)
+    if r.random() < 0.2:
+        # derivative parameters next to the program layer (never targeted themselves: a covout on one overwrites the rate `_dx`)
+        spec = closed_corr.enrich_derivative(spec, r, regime)
     prefer = enrich_targets(spec, r)
     spec["progspec"] = gen_progspec(r, spec, force_t0, prefer)
+    if r.random() < 0.2:
+        # parameter scenarios on function parameters (skip windows) next to the program layer: inside the window a targeted parameter
+        # still takes the program value while programs are active, an untargeted one the scenario value
+        spec = closed_corr.enrich_scenarios(spec, r, regime)
     return spec
 
 
@@ -350,6 +357,8 @@ def extract_p(m):
             continue
         if any(n not in prog_names for n in co.progs):
             raise Unsupported("covout-with-unknown-program")
+        if par.derivative:
+            raise Unsupported("covout-on-derivative-parameter")   # the program overwrites `_dx`, not the value (wfPSpec refuses it)
         names = list(co.progs.keys())
         exl = params_corr.parse_imp(co.imp_interaction, names)
         t = [str(pidx[id(par)]), co.cov_interaction, q(float(co.baseline)), str(len(names))]
@@ -660,6 +669,35 @@ def program_oracles(m, ex):
     return out
 
 
+def extension_oracles(m, ex):
+    """the direct oracles of closed_corr for what the base specification gained: the Euler recurrence of derivative parameters (never
+    targeted here) and the scenario value of an UNTARGETED function parameter inside its skip window"""
+    out = []
+    dyn = set(m._exec_order["dynamic_pars"])
+    targeted = {id(par) for par, _ in ex["covouts"] if par.name in dyn}
+    parset = m._verif_parset
+    tt = np.asarray(m.t, dtype=float)
+    for p in ex["pars"]:
+        if p.vals is None:
+            continue
+        v = np.asarray(p.vals, dtype=float)
+        if p.derivative and p.fcn_str and p._fcn is not None and id(p) not in targeted:
+            bad = closed_corr.derivative_oracle(m, p, v)
+            if bad:
+                out.append(bad)
+        elif p.skip_function and p.fcn_str and id(p) not in targeted and p.name in parset.pars:
+            cp = parset.pars[p.name]
+            e = cp.interpolate(tt, p.pop.name) * cp.y_factor[p.pop.name] * cp.meta_y_factor
+            if p.limits is not None:
+                e = np.clip(e, p.limits[0], p.limits[1])
+            inside = (tt >= p.skip_function[0]) & (tt <= p.skip_function[1])
+            bad = inside & ~(np.isfinite(e) & np.isfinite(v) & (np.abs(e - v) <= 1e-9 * np.maximum(1.0, np.abs(e))))
+            if bad.any():
+                t = int(np.argmax(bad))
+                out.append(({"oracle": "skip-window-value"}, f"parameter {p.id} at index {t} (t={tt[t]!r}) lies inside its skip window {tuple(p.skip_function)} and no program targets it, but it holds {v[t]!r} instead of the scenario value {e[t]!r} ({p.fcn_str})"))
+    return out
+
+
 def untargeted_oracle(m, ex):
     """closed_corr.par_oracle with the overwritten (parameter, index) pairs left out: limits everywhere; function / data value where no
     program applies (C06 / C13 "parameters that no program targets are changed only through the model dynamics")"""
@@ -807,12 +845,12 @@ def check_one(ctx, prop, spec, m, key):
         return "unsupported"
     net = ex["net"]
     net["n_link"] = ex["n_link"]
-    if grid_ambiguous(m):
+    if grid_ambiguous(m) or closed_corr.window_ambiguous(m):
         ctx.ambiguous += 1
         ctx.count("closedprog.ambiguous.grid_vs_breakpoint")
         return "ambiguous"
     rep = core.drive([cpsim_req(ex["tokens"])], timeout=900)[0]
-    tags = features_p(m, ex, spec) | {t for t in closed_corr.features_of(m, ex, spec) if t.startswith(("has.", "units.", "fn.", "agg."))}
+    tags = features_p(m, ex, spec) | {t for t in closed_corr.features_of(m, ex, spec) if t.startswith(("has.", "units.", "fn.", "agg.", "scen.", "deriv."))}
     for tg in tags:
         ctx.count(tg)
     nontriv = any(t.startswith("target.") for t in tags) and "prog.never_active" not in tags
@@ -887,6 +925,7 @@ def check_one(ctx, prop, spec, m, key):
         ctx.notes.append("prefix oracle: " + repr(e)[:200])
     found += program_oracles(m, ex)
     found += untargeted_oracle(m, ex)
+    found += extension_oracles(m, ex)
     for okey, owhat in found:
         ctx.violation({"api": "Model.update_pars", **okey}, owhat, replay)
     ors, illposed = engine_corr.oracles(m, net)
@@ -966,7 +1005,7 @@ def replay_case(case, verbose=True):
             found += prefix_oracle(spec, m)
         except Exception as e:
             print("prefix oracle not evaluated:", repr(e)[:200])
-        found += program_oracles(m, ex) + untargeted_oracle(m, ex)
+        found += program_oracles(m, ex) + untargeted_oracle(m, ex) + extension_oracles(m, ex)
     if verbose:
         print(f"indices computed by the model: {len(entries)} of {len(m.t)}; stop={stop}; start_year={float(m.program_instructions.start_year)!r} stop_year={float(m.program_instructions.stop_year)!r}")
         print("first disagreement:", diffs[0]["what"] if diffs else None)
